@@ -359,6 +359,17 @@ def negative_duration(t, env):
     return False
 
 
+def embeddable(t):
+    """every time dependent scalar in the tree uses + or - (then the template is embedded in the Coq model as
+    pulse-with-pulse arithmetic, Corr.arith_tl / arith_tr)"""
+    if t['k'] in ('arithl', 'arithr') and ('allt' in t['s'] or 'mapt' in t['s']) and t['op'] not in ('+', '-'):
+        return False
+    for key in ('b', 'l', 'r'):
+        if key in t and not embeddable(t[key]):
+            return False
+    return all(embeddable(s) for s in t.get('ps', []))
+
+
 def tdarith_cases(rng, n):
     """ArithmeticPT with a time dependent scalar operand (polynomial of degree <= 1 in t, + - *) over an atomic template
     (constant / polynomial function / table of linear segments), bare, inside a sequence and inside a for-loop whose
